@@ -926,6 +926,6 @@ func main() {
 		Run:         run,
 		MinEvals:    3000,
 		MinDistinct: 60,
-		Require:     []string{"accepted_blocks", "purity_calls_checked", "provenance_comparisons", "stepwise_comparisons", "copies_checked", "concurrent_calls", "max_overlapping_calls", "update_element_proof_purity_checked"},
+		Require:     []string{"half_second_median_timestamp_comparisons", "supplement_with_a_contract_not_expiring_comparisons", "recomputable_proof_hash_comparisons", "sub_second_timestamp_comparisons", "state_identity_comparisons", "accepted_blocks", "purity_calls_checked", "provenance_comparisons", "stepwise_comparisons", "copies_checked", "concurrent_calls", "max_overlapping_calls", "update_element_proof_purity_checked"},
 	})
 }
